@@ -74,7 +74,12 @@ def gen_case(rng, p, maxops):
                 react = " react=" + ",".join("R%d" % j for j in sorted(rng.sample(range(nreact), rng.randint(1, min(2, nreact)))))
             edns = " edns=1" if rng.random() < p.get("edns_prob", 0.0) else ""
             kind = wchoice(rng, p.get("kinds", [("send", 1)]))
-            nm = rng.choice(NAMES + (["host.", "a.b.c.d.", "\\097" * 62] if kind == "search" else []))
+            nm = rng.choice(NAMES + (["host.", "a.b.c.d.", "\\097" * 62] if kind == "search" else [])
+                            + (["10.1.2.3", "host.", "192.168.0.300"] if kind == "gai" else []))
+            if kind == "gai":
+                ops.append("req tok=%d kind=gai name=%s fam=%d%s" % (tok, nm, rng.choice([0, 0, 2, 10]), react))
+                outstanding += 1
+                continue
             ops.append("req tok=%d kind=%s name=%s type=%d%s%s" % (tok, kind, nm, rng.choice(p.get('qtypes', [1, 1, 1, 16, 15, 43])), edns, react))
             outstanding += 1
         elif r < 0.55:
